@@ -12,7 +12,7 @@ A program is a JSON-able tree of operations against a ``SerDes`` instance:
     ["enter_only", target]           subcontext_enter without leave   (negative variants only)
     ["begin_only", length]           bounded_block_begin without end  (negative variants only)
 
-    program = {"ops": [...], "types": {type_name: [key, ...]}}
+    program = {"ops": [...], "types": {type_name: [key, ...] | None}}   (None: the builtin dict)
 
 The *model context* is the description to serialise, as plain JSON-able data:
 target -> bool | int | bytes | {"__ba": "0101"} (a bitarray) | dict (sub-context)
@@ -168,7 +168,8 @@ class _Gen(object):
         r = self.rng
         keys = sorted(set(_frame_targets(ops)) | set(model)) + list(EXTRA_KEYS)
         name = self.fresh("T")
-        self.types[name] = keys
+        # keys None: the declared type is the builtin dict itself
+        self.types[name] = None if r.random() < 0.15 else keys
         pos = 0 if r.random() < 0.7 else r.randrange(0, len(ops) + 1)
         ops.insert(pos, ["set_type", name])
         if r.random() < 0.15:
@@ -445,7 +446,9 @@ def run_ops(serdes, ops, types, explicit=False, check_tree=True, _path=None, _co
                 if path and path[-1][1] is not None:
                     stats["set_type_in_list"] = stats.get("set_type_in_list", 0) + 1
             if type(serdes.cur_context) is not types[op[1]]:
-                raise TreeInconsistent("type-not-set", "after set_context_type(%s) the current context is a %s" % (op[1], type(serdes.cur_context).__name__))
+                where = "list-element" if path and path[-1][1] is not None else ("nested" if path else "top")
+                kept = ":subclass-instance-kept" if isinstance(serdes.cur_context, types[op[1]]) else ""
+                raise TreeInconsistent("type-not-set:%s%s" % (where, kept), "after set_context_type(%s) the current context is a %s" % (op[1], type(serdes.cur_context).__name__))
             if check_tree:
                 _check_reachable(serdes, path, "set-type")
         elif k == "sub":
